@@ -59,7 +59,7 @@ MANIFEST = dict(
 )
 
 IMPORTS = ['Coq.Lists.List', 'Coq.NArith.NArith', 'SV.Fmt.VpkDir', 'SV.SM.Vpk', 'SV.Fmt.VpkArchName', 'SV.SM.VpkCorr', 'SV.Gen.VpkPlace_gen',
-           'SV.Gen.VpkArchName_gen', 'SV.Fmt.VpkNullStr', 'SV.Gen.VpkNullStr_gen', 'SV.SM.VpkNested', 'SV.Gen.VpkNested_gen', 'SV.SM.VpkApi', 'SV.Gen.VpkApi_gen', 'SV.SM.VpkNestedMap']
+           'SV.Gen.VpkArchName_gen', 'SV.Fmt.VpkNullStr', 'SV.Gen.VpkNullStr_gen', 'SV.SM.VpkNested', 'SV.Gen.VpkNested_gen', 'SV.SM.VpkApi', 'SV.Gen.VpkApi_gen', 'SV.SM.VpkNestedMap', 'SV.SM.VpkPlace']
 PRE = 'Import ListNotations. Open Scope N_scope.\n'
 
 R_OK, R_RO, R_EXISTS, R_MISSING, R_BADNAME, R_BADIDX, R_BADDIR, R_EXC = 0, 1, 2, 3, 4, 5, 6, 9
@@ -1431,6 +1431,9 @@ def run(ck: Ck) -> None:
             'empty_string_is_a_space_on_both_sides': 'andb (bytes_eqb (nc_blank_r g_ncodec) (32%N :: nil)) (bytes_eqb (nc_blank_w g_ncodec) (32%N :: 0%N :: nil))',
             'preload_capped_at_16_bits': 'andb g_preload_capped (match g_max_preload with Some m => N.leb m 65535 | None => false end)',
             'dir_tail_goes_to_footer_data': 'g_tail_to_footer',
+            # premise of c13_write_placement_is_table: the table obtained by executing FileInfo.write on symbolic values
+            'write_placement_table_matches_model': 'place_table_ok g_place_table',
+            'write_with_unchanged_checksum_has_no_effect': 'g_same_crc_skips',
             'archive_index_validated': 'g_chk_idx',
             'unrepresentable_names_rejected': 'g_chk_name',
             'instance_satisfies_theorem_premises': 'andb (vcfg_ok (g_vcfg true (Some 1024%N))) (vcfg_ok (g_vcfg false None))',
